@@ -169,6 +169,22 @@ def depsLine (MT : Nat) : String :=
   " ".intercalate ((redSpace MT).map fun t =>
     s!"{t.1},{t.2}:A={showSrc (redA t.1 t.2)};B={showSrc (redB MT t.1 t.2)};C={showDst (redOut MT t.1 t.2)}")
 
+def showSrcCol (leaf inner : String) : Src → String
+  | .tile m => s!"{leaf}({m},0)"
+  | .node l p => s!"{inner}({l},{p},0)"
+  | .null => "NULL"
+
+def showDstCol (inner : String) : Dst → String
+  | .result _ => "dest(0)"
+  | .flowA l p => s!"Rtop:{inner}({l},{p},0)"
+  | .flowB l p => s!"Rbottom:{inner}({l},{p},0)"
+
+/-- dependency edges of reduce_col.jdf / reduce_row.jdf for column 0 -/
+def depsColLine (leaf inner : String) (d : Nat) : String :=
+  " ".intercalate (((List.range (2 ^ d)).map fun r => s!"in{r}:{showDstCol inner (colLeafOut r)}") ++
+    (colSpace d).map fun t =>
+      s!"{t.1},{t.2}:Rbottom={showSrcCol leaf inner (colBottom t.1 t.2)};Rtop={showSrcCol leaf inner (colTop t.1 t.2)};out={"+".intercalate ((colOut d t.1 t.2).map (showDstCol inner))}")
+
 def step (_ : Unit) : List String → Unit × String
   | ["apply", mt, nt, u] =>
     match int? mt, int? nt, int? u with
@@ -195,6 +211,14 @@ def step (_ : Unit) : List String → Unit × String
     | some n => ((), toString (clog2 n))
     | none => ((), "bad-op")
   | "space" :: rest => ((), spaceLine rest)
+  | ["deps", "reduce_col", d] =>
+    match nat? d with
+    | some d => ((), depsColLine "reduce_in_col" "reduce_col" d)
+    | none => ((), "bad-op")
+  | ["deps", "reduce_row", d] =>
+    match nat? d with
+    | some d => ((), depsColLine "reduce_in_row" "reduce_row" d)
+    | none => ((), "bad-op")
   | ["deps", "reduce", mt] =>
     match nat? mt with
     | some mt => ((), depsLine mt)
